@@ -615,3 +615,28 @@ pub fn py_merge(plan: &Value, res: &Value) -> (Value, Value) {
         json!({"h": h, "kind": "hist-py", "plan": plan, "results": res}),
     )
 }
+
+
+// ------------------------------------------------------------------------------------------
+// C11: every non-ASCII scalar value alone, escaped with and without surrogate pairs. One compact
+// event per block of code points; TLC recomputes every expected token with Grex!EscTok.
+// ------------------------------------------------------------------------------------------
+pub fn esc_sweep_block(h: usize, first: usize, last: usize, surr: bool) -> (Value, Value) {
+    let mut cfg = Cfg::default();
+    cfg.escape = true;
+    cfg.surr = surr;
+    let mut items = vec![];
+    for i in first..last {
+        let c = crate::gen::scalar(i);
+        if (c as u32) < 0x80 {
+            continue;
+        }
+        let out = lib_out(&[c.to_string()], &cfg).unwrap_or_else(|e| format!("PANIC {}", e));
+        let toks: Vec<Value> = crate::emit::esc_tokens(&out).iter().map(|(k, v)| json!([k, v])).collect();
+        items.push(json!([c as u32, toks]));
+    }
+    (
+        json!({"ev": "escsweep", "h": h, "surr": surr, "items": items}),
+        json!({"h": h, "kind": "escsweep", "first": first, "last": last, "surr": surr}),
+    )
+}
